@@ -154,7 +154,7 @@ PROPS.update({
         "wf_check (proved to establish every clause of the property, Theorem c09_wf_check_sound / c09_clauses) is evaluated on the dump of every "
         "automaton built, for all enumerated heuristic answer sequences - all states, not only those a host visits.",
         "verified structural checker (Coq soundness proof) run on the dump of every real automaton", ["c09", "tab09"]),
-    "C05": {"subs": ["c05", "pg05", "pgm"], "level": "exploration", "rule": AUT_RULE + "; for C05 each (pattern, host) pair is one case",
+    "C05": {"subs": ["c05", "pg05", "pgm"], "level": "proof", "rule": AUT_RULE + "; for C05 each (pattern, host) pair is one case",
         "trusted_base": AUT_TB, "assumptions": AUT_ASSUME, "timeout": 3000,
         "explanation": "Strings and matrices: Theorems c05_{string,matrix}_single_exact / _match_exists_exact / _naive_exact - the modelled SinglePatternMatcher "
                        "reports exactly the occurrences (every reported binding is anchored at an occurrence and binds all constraint keys; every occurrence is "
